@@ -255,4 +255,59 @@ def allValues {β : Type} : List (GenEv β) → List β
   | .value _ v :: es => v :: allValues es
   | .stop _ :: es => allValues es
 
+/-! ## `fill_into` through the constructor (all call forms, `None` defaults) -/
+
+/-- what feeding a flow to `Slice(start, stop, step).fill_into` value by value gives, the caller stopping at the first
+`LenaStopFill` -/
+inductive FillRun (α : Type) where
+  /-- `LenaValueError` at construction -/
+  | valueError
+  /-- a `Slice` with a negative argument has no `fill_into` state: `AttributeError` at the first call -/
+  | attributeError
+  /-- the values filled and the index at which `LenaStopFill` was raised, if it was -/
+  | filled (ys : List α) (stopAt : Option Nat)
+  deriving Repr, DecidableEq
+
+/-- `sl = Slice(start, stop, step)`, then `sl.fill_into(el, x)` for the values of `xs` in turn -/
+def sliceFillAll {α : Type} (start stop step : Option Int) (xs : List α) : FillRun α :=
+  match mkSliceInst start stop step with
+  | none => .valueError
+  | some c =>
+    match c.kind with
+    | .islice _ b s => .filled (fillAll b s c.fill 0 xs).1 (fillAll b s c.fill 0 xs).2
+    | _ => .attributeError
+
+/-- the same for a caller that goes on after `LenaStopFill`: the outcome of every call (`none`: no such object /
+no `fill_into` state) -/
+def sliceFillTrace {α : Type} (start stop step : Option Int) (xs : List α) : Option (List FillOut) :=
+  match mkSliceInst start stop step with
+  | none => none
+  | some c =>
+    match c.kind with
+    | .islice _ b s => some (fillTrace b s c.fill xs)
+    | _ => none
+
+/-- the index at which `LenaStopFill` is raised by a `Slice` whose index iterator is at `next` while value
+number `cnt` is being filled (`st` = stop): at once if nothing more is selected, else right after the last selected
+index -/
+def stopIdx (next cnt st step : Nat) : Nat :=
+  if st ≤ next then cnt else next + ((st - next - 1) / step) * step + 1
+
+/-! ## steps that are not integers -/
+
+/-- the step argument as Python passes it: `None`, an `int`, or a `float` (finite or not, integral or not) -/
+inductive StepArg where
+  | none
+  | int (i : Int)
+  | float
+  deriving Repr, DecidableEq
+
+/-- `Slice.__init__` for any kind of step: `itertools.islice` accepts no float at all (non-negative branch and the
+probe of the negative branch), and the negative branch rejects `step <= 0`, non-integral values and the values
+`int()` cannot convert (`inf`, `nan`: notes/C17_defect_3) — every float step ends in `LenaValueError`. -/
+def mkSliceStepArg (ms : Nat) (start stop : Option Int) : StepArg → SliceKind
+  | .none => mkSliceMS ms start stop Option.none
+  | .int i => mkSliceMS ms start stop (some i)
+  | .float => .valueError
+
 end Lena.C17
